@@ -308,7 +308,7 @@ def run(ctx):
     import random
     sdir = env.scratch()
     rec = ctx.rec
-    for i in range(ctx.pick(600, 20000)):
+    for i in range(ctx.pick(600, 60000)):
         if not ctx.mine(i):
             continue
         rng = random.Random("C15|%s|%d" % (ctx.seed, i))
